@@ -105,7 +105,7 @@ func (v DenseReal32Vector) APPEND(w DenseReal32Vector) DenseReal32Vector {
   return append(v, w...)
 }
 func (v DenseReal32Vector) ToDenseReal32Matrix(n, m int) *DenseReal32Matrix {
-  if n*m != len(v) {
+  if n < 0 || m < 0 || n*m != len(v) {
     panic("Matrix dimension does not fit input vector!")
   }
   matrix := DenseReal32Matrix{}
